@@ -6,6 +6,61 @@ From Coq Require Import String ZArith QArith List Bool Lia Arith.
 From Ticc Require Import Gen.PyRt Gen.G_main_loop_results Model.Repop Model.Viterbi Model.Accounting.
 Import ListNotations.
 
+(* ---- helper lemmas (copied from the sibling GenEquiv files / local) ---- *)
+Lemma py_getitem_nat {A : Type} (l : list A) (k : nat) (d : A) :
+  (k < length l)%nat -> py_getitem l (Z.of_nat k) = Ret (nth k l d).
+Proof.
+  intros Hk. unfold py_getitem, py_len. cbv zeta.
+  assert (E1 : (Z.of_nat k <? 0)%Z = false) by (apply Z.ltb_ge; lia).
+  assert (E2 : (Z.of_nat (length l) <=? Z.of_nat k)%Z = false) by (apply Z.leb_gt; lia).
+  rewrite E1. cbv iota. rewrite E1, E2. cbn [orb]. rewrite Nat2Z.id, (nth_error_nth' l d Hk). reflexivity.
+Qed.
+
+Lemma foldM_map {S X Y : Type} (f : S -> Y -> res S) (g : X -> Y) (xs : list X) (s : S) :
+  foldM f (map g xs) s = foldM (fun s x => f s (g x)) xs s.
+Proof.
+  revert s. induction xs as [|x xs IH]; intros s; cbn [map foldM]; [reflexivity|].
+  destruct (f s (g x)) as [s'|e]; cbn [bind]; [apply IH | reflexivity].
+Qed.
+
+Lemma combine_map_both {A B C D : Type} (f : A -> C) (g : B -> D) (l1 : list A) (l2 : list B) :
+  combine (map f l1) (map g l2) = map (fun ab => (f (fst ab), g (snd ab))) (combine l1 l2).
+Proof.
+  revert l2. induction l1 as [|a l1 IH]; intros [|b l2]; cbn [map combine fst snd]; try reflexivity.
+  f_equal. apply IH.
+Qed.
+
+Lemma py_enumerate_nat (labels : list nat) :
+  py_enumerate (map Z.of_nat labels)
+  = map (fun ip => (Z.of_nat (fst ip), Z.of_nat (snd ip))) (combine (seq 0 (length labels)) labels).
+Proof.
+  unfold py_enumerate, py_len. rewrite map_length, zrange_of_nat. apply combine_map_both.
+Qed.
+
+Lemma in_enum_nat (labels : list nat) (p l : nat) :
+  In (p, l) (combine (seq 0 (length labels)) labels) -> (p < length labels)%nat /\ nth p labels 0%nat = l.
+Proof.
+  intros Hin. apply (In_nth _ _ (0%nat, 0%nat)) in Hin. destruct Hin as [n [Hn He]].
+  rewrite combine_length, seq_length, Nat.min_id in Hn.
+  rewrite combine_nth in He by apply seq_length.
+  rewrite seq_nth in He by exact Hn. cbn [Nat.add] in He.
+  injection He as Hp Hl. subst p. split; [exact Hn | exact Hl].
+Qed.
+
+Lemma set_nth_map_seq {A : Type} (f g : nat -> A) (v : A) (K s l : nat) :
+  (l < K)%nat -> g (s + l)%nat = v -> (forall k, k <> (s + l)%nat -> g k = f k) ->
+  set_nth l v (map f (seq s K)) = map g (seq s K).
+Proof.
+  revert s l. induction K as [|K IH]; intros s l Hl Hv Hne; [lia|].
+  cbn [seq map]. destruct l as [|l]; cbn [set_nth].
+  - rewrite Nat.add_0_r in Hv, Hne. rewrite Hv. f_equal.
+    apply map_ext_in. intros k Hk. apply in_seq in Hk. symmetry. apply Hne. lia.
+  - rewrite (Hne s) by lia. f_equal. apply IH.
+    + lia.
+    + rewrite <- Hv. f_equal. lia.
+    + intros k Hk. apply Hne. lia.
+Qed.
+
 Section E.
   Variable F : Type.
   Variable CL : Type.
@@ -15,15 +70,86 @@ Section E.
   Definition value_of (NW W : nat) (data : list (list F)) (cls : list CL) (labels : list nat) (p : nat) : F :=
     pll (nth p data []) (nth (nth p labels 0%nat) cls dcl) (Z.of_nat W) (Qdiv (inject_Z (Z.of_nat NW)) (inject_Z (Z.of_nat W))).
 
-  (* STATEMENT (to be proved):
+  (* the buckets of a processed list of (point, label) pairs, value given per pair *)
+  Definition bk (K : nat) (v : nat * nat -> F) (done : list (nat * nat)) : list (list F) :=
+    map (fun k => map v (filter (fun ip => Nat.eqb (snd ip) k) done)) (seq 0 K).
+
+  Lemma bk_snoc (K : nat) (v : nat * nat -> F) (done : list (nat * nat)) (p l : nat) :
+    (l < K)%nat ->
+    py_append_at (bk K v done) (Z.of_nat l) (v (p, l)) = Ret (bk K v (done ++ [(p, l)])).
+  Proof.
+    intros Hl. unfold py_append_at.
+    set (f := fun k => map v (filter (fun ip : nat * nat => Nat.eqb (snd ip) k) done)).
+    assert (Hlen : length (bk K v done) = K) by (unfold bk; now rewrite map_length, seq_length).
+    rewrite (py_getitem_nat (bk K v done) l (f 0%nat)) by (rewrite Hlen; exact Hl).
+    cbn [bind].
+    assert (E1 : (Z.of_nat l <? 0)%Z = false) by (apply Z.ltb_ge; lia).
+    rewrite E1, Nat2Z.id. f_equal.
+    unfold bk. fold f. rewrite (map_nth f), seq_nth by exact Hl. cbn [Nat.add].
+    apply set_nth_map_seq.
+    - exact Hl.
+    - cbn [Nat.add]. unfold f. rewrite filter_app, map_app. cbn [filter snd].
+      rewrite Nat.eqb_refl. reflexivity.
+    - cbn [Nat.add]. intros k Hk. unfold f. rewrite filter_app, map_app. cbn [filter snd].
+      destruct (Nat.eqb l k) eqn:E; [apply Nat.eqb_eq in E; congruence|].
+      cbn [map]. apply app_nil_r.
+  Qed.
+
   Theorem g_buckets_eq (T K NW W : nat) (data : list (list F)) (cls : list CL) (labels : list nat) :
     (1 <= W)%nat -> length data = T -> length labels = T -> length cls = K ->
     Forall (fun l => (l < K)%nat) labels ->
     g_compute_log_likelihood_by_cluster F CL pll (mk_arr2 (Z.of_nat T) (Z.of_nat NW) data)
        (mk_ll_model (mk_ll_args (Z.of_nat W) (Z.of_nat K)) cls (map Z.of_nat labels))
     = Ret (buckets K labels (value_of NW W data cls labels)).
-  *)
+  Proof.
+    intros HW Hdata Hlabels Hcls Hall.
+    unfold g_compute_log_likelihood_by_cluster.
+    cbn [a_cols a_cells lm_arguments lm_clusters lm_point_labels la_window_size la_num_clusters].
+    unfold py_truediv_int.
+    assert (EW : (Z.of_nat W =? 0)%Z = false) by (apply Z.eqb_neq; lia).
+    rewrite EW. cbn [bind].
+    set (q := Qdiv (inject_Z (Z.of_nat NW)) (inject_Z (Z.of_nat W))).
+    set (v := fun ip : nat * nat => pll (nth (fst ip) data []) (nth (snd ip) cls dcl) (Z.of_nat W) q).
+    rewrite py_enumerate_nat, Hlabels, foldM_map, zrange_of_nat, map_map.
+    set (pairs := combine (seq 0 T) labels).
+    assert (Hpairs : forall p l, In (p, l) pairs -> (p < T)%nat /\ (l < K)%nat /\ nth p labels 0%nat = l).
+    { intros p l Hin. unfold pairs in Hin. rewrite <- Hlabels in Hin.
+      pose proof (in_combine_r _ _ _ _ Hin) as Hr.
+      apply in_enum_nat in Hin. destruct Hin as [Hp Hn].
+      rewrite Forall_forall in Hall. split; [lia|]. split; [apply Hall; exact Hr | exact Hn]. }
+    assert (Hinit : map (fun _ : nat => @nil F) (seq 0 K) = bk K v []).
+    { unfold bk. reflexivity. }
+    rewrite Hinit.
+    assert (Hloop : forall post done, (forall p l, In (p, l) post -> (p < T)%nat /\ (l < K)%nat) ->
+      foldM (fun (s : list (list F)) (x : nat * nat) =>
+               let '(point_id, cluster_id) := (Z.of_nat (fst x), Z.of_nat (snd x)) in
+               if (cluster_id =? - (1))%Z then Ret s
+               else t4_ <- np_row (mk_arr2 (Z.of_nat T) (Z.of_nat NW) data) point_id ;;
+                    t5_ <- py_getitem cls cluster_id ;;
+                    s' <- py_append_at s cluster_id (pll t4_ t5_ (Z.of_nat W) q) ;;
+                    Ret s') post (bk K v done) = Ret (bk K v (done ++ post))).
+    { induction post as [|[p l] post IH]; intros done Hpost; cbn [foldM].
+      - now rewrite app_nil_r.
+      - destruct (Hpost p l (or_introl eq_refl)) as [Hp Hl]. cbn [fst snd].
+        assert (E : (Z.of_nat l =? - (1))%Z = false) by (apply Z.eqb_neq; lia).
+        rewrite E. unfold np_row. cbn [a_cells].
+        rewrite (py_getitem_nat data p []) by lia. cbn [bind].
+        rewrite (py_getitem_nat cls l dcl) by lia. cbn [bind].
+        change (pll (nth p data []) (nth l cls dcl) (Z.of_nat W) q) with (v (p, l)).
+        rewrite bk_snoc by exact Hl. cbn [bind].
+        rewrite IH by (intros p0 l0 Hin; apply Hpost; right; exact Hin).
+        now rewrite <- app_assoc. }
+    rewrite Hloop by (intros p l Hin; destruct (Hpairs p l Hin) as [Hp [Hl _]]; split; assumption).
+    cbn [bind app]. f_equal.
+    unfold bk, buckets, members. apply map_ext. intros k.
+    rewrite Hlabels. fold pairs. rewrite map_map.
+    apply map_ext_in. intros [p l] Hin. apply filter_In in Hin. destruct Hin as [Hin _].
+    destruct (Hpairs p l Hin) as [_ [_ Hn]].
+    unfold v, value_of. cbn [fst snd]. rewrite Hn. reflexivity.
+  Qed.
 End E.
+
+Print Assumptions g_buckets_eq.
 
 Definition dd : list (list Z) := [[1];[2];[3];[4];[5];[6]]%Z.
 Eval vm_compute in g_compute_log_likelihood_by_cluster Z Z (fun r c w q => (hd 0 r * 100 + c)%Z) (mk_arr2 6 1 dd)
